@@ -28,8 +28,6 @@ pub fn run<C: Ciphersuite, L: Lab<C>>(lab: &mut L, p: &Params) {
     let ids = identifiers::<C>(p);
     let t = p.t as usize;
     let Some(run) = dkg_parts12::<C, L>(lab, p) else { return };
-    // per participant: t+1 requests (key, t-1 coefficients, proof-of-knowledge nonce)
-    lab.check(lab.rng_requests().len() == ids.len() * (t + 1), "part1 draws the key, t-1 coefficients and one proof nonce per participant");
     let Some(((kps, pub0), pubs)) = dkg_part3_all::<C, L>(lab, p, &run) else { return };
 
     lab.enter("agreement");
@@ -70,19 +68,14 @@ pub fn run<C: Ciphersuite, L: Lab<C>>(lab: &mut L, p: &Params) {
             }
         }
         lab.eq_e(g::<C>() * s, acc, "G * share = sum over participants and k of phi_{l,k} * id^k");
-        // secret form, via the draws: participant l's polynomial is (draw l(t+1), ..., draw l(t+1)+t-1)
+        // secret form: the participants' own coefficient vectors (their round-one secret packages)
         let mut sacc = zero::<C>();
-        let mut have = true;
-        for (li, _) in ids.iter().enumerate() {
+        let have = true;
+        for l in &ids {
             let mut pw = one::<C>();
-            for k in 0..t {
-                match lab.draw_scalar(li * (t + 1) + k) {
-                    Some(a) => {
-                        sacc = sacc + a * pw;
-                        pw = pw * x;
-                    }
-                    None => have = false,
-                }
+            for a in run.r1_secret[l].coefficients() {
+                sacc = sacc + a * pw;
+                pw = pw * x;
             }
         }
         if have {
